@@ -94,6 +94,20 @@ def corr_pixel(n_quick, n_thorough):
     return run
 
 
+def corr_methods(n_quick, n_thorough):
+    def run(tier, seed):
+        import corr_methods as C
+        return C.run(seed, n_quick if tier == 'quick' else n_thorough)
+    return run
+
+
+def corr_samplers(n_quick, n_thorough):
+    def run(tier, seed):
+        import corr_samplers as C
+        return C.run(seed, n_quick if tier == 'quick' else n_thorough)
+    return run
+
+
 CONV_FUNCS = ['normalize_bbox', 'denormalize_bbox', 'convert_bbox_to_dicaugment', 'convert_bbox_from_dicaugment',
               'check_bbox', 'convert_keypoint_to_dicaugment', 'convert_keypoint_from_dicaugment', 'check_keypoint',
               'angle_to_2pi_range', 'convert_bboxes_to_dicaugment', 'convert_bboxes_from_dicaugment',
@@ -132,7 +146,7 @@ GEOM_TRUSTED = ['model/Arrays.v (NumPy slicing / reversal / transpose / rot90 / 
                 'explicit (parameter-dict keys read from get_params*/update_params literals)']
 
 PROPS['C02'] = {
-    'requires': BOX_FUNCS, 'corr': corr_multi(corr_fn('C02', BOX_FUNCS, 30, 800), corr_fn('C02a', ARR_FUNCS, 25, 500)),
+    'requires': BOX_FUNCS, 'corr': corr_multi(corr_fn('C02', BOX_FUNCS, 30, 800), corr_fn('C02a', ARR_FUNCS, 25, 500), corr_methods(2, 20)),
     'search': 'C02', 'trusted_base': GEOM_TRUSTED,
     'assumptions': ['frame extents positive', 'resampling and free-rotation clauses are checked on the implementation '
                     'by the search oracle only (SciPy resampling is not modelled)'],
@@ -143,7 +157,7 @@ PROPS['C02'] = {
                   'Resampling transforms: search oracle only (partial).',
 }
 PROPS['C03'] = {
-    'requires': KP_FUNCS, 'corr': corr_multi(corr_fn('C03', KP_FUNCS, 30, 800), corr_fn('C03a', ARR_FUNCS, 15, 300)),
+    'requires': KP_FUNCS, 'corr': corr_multi(corr_fn('C03', KP_FUNCS, 30, 800), corr_fn('C03a', ARR_FUNCS, 15, 300), corr_methods(2, 20)),
     'search': 'C03', 'trusted_base': GEOM_TRUSTED + ['angle table lat_angle: direction vector (cos a, sin a) under the xy '
                                                     'part of the descriptor (specification)'],
     'assumptions': ['quarter turns in planes containing z keep the in-plane angle (library convention, DESIGN 7)'],
@@ -154,7 +168,7 @@ PROPS['C03'] = {
     'level_note': 'Trusted: as C02. Resampling transforms: search oracle only (partial).',
 }
 PROPS['C01'] = {
-    'requires': ARR_FUNCS, 'corr': corr_fn('C01', ARR_FUNCS, 40, 900), 'search': 'C01', 'trusted_base': GEOM_TRUSTED,
+    'requires': ARR_FUNCS, 'corr': corr_multi(corr_fn('C01', ARR_FUNCS, 40, 900), corr_methods(2, 20)), 'search': 'C01', 'trusted_base': GEOM_TRUSTED,
     'assumptions': ['SciPy resampling (zoom / affine_transform) is not modelled: those transforms are covered by the '
                     'search oracle with nearest interpolation'],
     'level_text': 'For the lattice classes the mask path is proved identical to the image path (inherited path = image '
@@ -165,7 +179,8 @@ PROPS['C01'] = {
 }
 PROPS['C07'] = {
     'requires': ARR_FUNCS + ['get_random_crop_coords', 'get_center_crop_coords'],
-    'corr': corr_multi(corr_fn('C07', ARR_FUNCS, 40, 900), corr_fn('C07b', ['get_random_crop_coords', 'get_center_crop_coords'], 60, 1500)),
+    'corr': corr_multi(corr_fn('C07', ARR_FUNCS, 40, 900), corr_fn('C07b', ['get_random_crop_coords', 'get_center_crop_coords'], 60, 1500),
+                       corr_methods(2, 20), corr_samplers(6, 80)),
     'search': 'C07', 'trusted_base': GEOM_TRUSTED,
     'assumptions': ['target-size arithmetic of the SciPy-based resizes is explored, not proved'],
     'level_text': 'Flips, transpose, quarter turns, crop windows (inside the volume and of the requested size for every '
@@ -255,7 +270,7 @@ PROPS['C12'] = {
 MASK_FUNCS = ['vflip', 'hflip', 'zflip', 'random_flip', 'transpose', 'rot90', '_pad', 'pad_with_params', 'cutout',
               'random_crop', 'center_crop', 'crop', 'clamping_crop']
 PROPS['C06'] = {
-    'requires': MASK_FUNCS, 'corr': corr_multi(corr_fn('C06', MASK_FUNCS, 25, 500), corr_classtab()), 'search': 'C06',
+    'requires': MASK_FUNCS, 'corr': corr_multi(corr_multi(corr_fn('C06', MASK_FUNCS, 25, 500), corr_classtab()), corr_methods(2, 20)), 'search': 'C06',
     'trusted_base': GEOM_TRUSTED + CLASSTAB_TRUSTED + [
         'SciPy zoom / affine_transform with order=0 return input voxels or cval (not modelled; explored by the search '
         'with sparse label alphabets)', 'dtype preservation is a NumPy fact outside the model (explored)'],
@@ -305,7 +320,7 @@ PROPS['C11'] = {
 
 DICOM_FUNCS = ['dicom_scale', 'transpose_dicom', 'reset_dicom_slope_intercept', 'rescale_slope_intercept']
 PROPS['C16'] = {
-    'requires': DICOM_FUNCS, 'corr': corr_multi(corr_fn('C16', DICOM_FUNCS, 60, 1500), corr_classtab()), 'search': 'C16',
+    'requires': DICOM_FUNCS, 'corr': corr_multi(corr_multi(corr_fn('C16', DICOM_FUNCS, 60, 1500), corr_classtab()), corr_methods(2, 20), corr_samplers(6, 80)), 'search': 'C16',
     'trusted_base': CLASSTAB_TRUSTED + [
         'header model (lib/PyRt.v: header): PixelSpacing, RescaleSlope, RescaleIntercept plus ONE opaque token for all other '
         'keys; the translator accepts only the fresh-dict idiom (res = {}; for k, v in d.items(): res[k] = v) as a copy and '
@@ -346,7 +361,7 @@ PROPS['C13'] = {
 
 PROPS['C20'] = {
     'requires': ['cutout', 'pixel_dropout'],
-    'corr': corr_fn('C20', ['cutout', 'pixel_dropout'], 60, 1200), 'search': 'C20',
+    'corr': corr_multi(corr_fn('C20', ['cutout', 'pixel_dropout'], 60, 1200), corr_methods(2, 20), corr_samplers(8, 120)), 'search': 'C20',
     'trusted_base': GEOM_TRUSTED + [
         'the hole samplers are translated per loop iteration (translator/py2coq.py: split_loop_sampler checks the '
         '`for _ in range(count): ...; holes.append(h)` idiom syntactically); the random draws are oracle parameters whose '
@@ -370,7 +385,7 @@ PROPS['C20'] = {
 C19_FUNCS = ['union_of_bboxes', 'get_random_crop_coords', 'random_crop', 'clamping_crop', 'bbox_crop', 'bbox_random_crop',
              'crop_bbox_by_coords']
 PROPS['C19'] = {
-    'requires': C19_FUNCS, 'corr': corr_fn('C19', C19_FUNCS, 40, 1200), 'search': 'C19',
+    'requires': C19_FUNCS, 'corr': corr_multi(corr_fn('C19', C19_FUNCS, 40, 1200), corr_methods(2, 20), corr_samplers(8, 120)), 'search': 'C19',
     'trusted_base': GEOM_TRUSTED + [
         'the parameter samplers of BBoxSafeRandomCrop / RandomCropNearBBox are translated with their random draws as oracle '
         'parameters (random.random in [0,1), random.randint in its range); float arithmetic is modelled by exact rationals, '
